@@ -76,6 +76,78 @@ def all_body_paths(paths):
                 yield from all_body_paths(e.extra["paths"])
 
 
+COPIES = ("set", "list", "tuple", "sorted", "frozenset")
+
+
+def pairing_loops_examine_the_whole_set(ctx, RULE, P) -> None:
+    ci = P.cls("DirectorySnapshotDiff")
+    fns = [fi.node for fi in ci.methods.values()] + [f.node for f in ci.module.functions.values()]
+    found = 0
+    for fn in fns:
+        # straight-line view of the function (nested defs are their own functions)
+        assigns: dict[str, list[ast.expr]] = {}
+        for n in ast.walk(fn):
+            if isinstance(n, ast.Assign) and len(n.targets) == 1:
+                if isinstance(n.targets[0], ast.Name):
+                    assigns.setdefault(n.targets[0].id, []).append(n.value)
+                elif isinstance(n.targets[0], ast.Tuple) and isinstance(n.value, ast.Tuple) and len(n.targets[0].elts) == len(n.value.elts):
+                    for t_, v_ in zip(n.targets[0].elts, n.value.elts):
+                        if isinstance(t_, ast.Name):
+                            assigns.setdefault(t_.id, []).append(v_)
+            elif isinstance(n, ast.AnnAssign) and isinstance(n.target, ast.Name) and n.value is not None:
+                assigns.setdefault(n.target.id, []).append(n.value)
+
+        def expand(e: ast.expr, depth: int = 0) -> str:
+            """the expression with single-assignment locals replaced by what they were assigned"""
+
+            class T(ast.NodeTransformer):
+                def visit_Name(self, n):
+                    vs = assigns.get(n.id, [])
+                    if isinstance(n.ctx, ast.Load) and len(vs) == 1 and depth < 4:
+                        return ast.parse(expand(vs[0], depth + 1), mode="eval").body
+                    return n
+
+            import copy as _copy
+
+            return ast.unparse(T().visit(_copy.deepcopy(e)))
+
+        for loop in [n for n in ast.walk(fn) if isinstance(n, ast.For) and isinstance(n.target, ast.Name)]:
+            v = loop.target.id
+            removed_from = set()
+            for c in ast.walk(loop):
+                if isinstance(c, ast.Call) and isinstance(c.func, ast.Attribute) and c.func.attr in ("remove", "discard") and isinstance(c.func.value, ast.Name) and len(c.args) == 1 and isinstance(c.args[0], ast.Name) and c.args[0].id == v:
+                    removed_from.add(c.func.value.id)
+            for S in sorted(removed_from):
+                found += 1
+                it = loop.iter
+                core = it
+                if isinstance(core, ast.Call) and isinstance(core.func, ast.Name) and core.func.id in COPIES and len(core.args) == 1:
+                    core = core.args[0]
+                elif isinstance(core, ast.Call) and isinstance(core.func, ast.Attribute) and core.func.attr == "copy" and not core.args:
+                    core = core.func.value
+                loc = f"{ci.module.relpath}:{loop.lineno}"
+                construct = f"{fn.name}: loop that removes its element from `{S}`"
+                if isinstance(core, ast.Name) and core.id == S and core is not it:
+                    ctx.ok(RULE, construct, loc)
+                    continue
+                # another expression: which value of S is it?
+                grown = [c for c in ast.walk(fn) if isinstance(c, ast.Call) and isinstance(c.func, ast.Attribute) and c.func.attr in ("add", "update") and isinstance(c.func.value, ast.Name) and c.func.value.id == S and c.lineno < loop.lineno]
+                grown += [c for c in ast.walk(fn) if isinstance(c, ast.AugAssign) and isinstance(c.target, ast.Name) and c.target.id == S and isinstance(c.op, ast.BitOr) and c.lineno < loop.lineno]
+                inits = assigns.get(S, [])
+                if len(inits) == 1 and expand(core) == expand(inits[0]):
+                    ctx.check(
+                        not grown,
+                        RULE,
+                        construct,
+                        f"the loop ranges over `{ast.unparse(it)[:60]}`, the value `{S}` started with, but `{S}` has been added to since (line {grown[0].lineno if grown else 0}): the paths added there are never examined, so one that is the {'source' if 'delet' in S else 'end'} of a move stays in `{S}` as well (an extra event for an entry of the difference)",
+                        loc,
+                    )
+                    continue
+                raise AnalysisError(f"{construct} (line {loop.lineno}): the loop ranges over `{ast.unparse(it)[:80]}`, which this rule cannot relate to `{S}` (known: a copy of `{S}`, or the expression `{S}` was initialised with)")
+    if not found:
+        raise AnalysisError("DirectorySnapshotDiff: no loop that takes its element out of a set was found (structure of the move pairing not recognised)")
+
+
 def run(ctx) -> None:
     P = ctx.P
     RW = ctx.rule("C10/tolerant-walk-at-every-position", "for every listdir/stat call below the root, at every depth: ENOENT, ENOTDIR and EACCES are absorbed inside the snapshot constructor, within the iteration of the entry they concern (the entry is treated as absent, its siblings are still visited)", floor=6)
@@ -163,6 +235,13 @@ def run(ctx) -> None:
     ipaths = Enumerator(WalkCfg(P, esc)).run(init, selfcls="DirectorySnapshot")
     root_raise = [p for p in ipaths if p.outcome[0] == "raise" and any(e.kind == "raised" and e.extra.get("at", "").startswith("self.stat(path") for e in p.evs)]
     ctx.check(len(root_raise) >= 3, RR, "DirectorySnapshot.__init__ root stat", "a failing stat of the root is absorbed: a vanished root would look like an empty tree instead of 'root gone'", init.loc)
+
+    RPL = ctx.rule(
+        "C10/pairing-loops-examine-the-whole-set",
+        "a loop of the diff computation whose body takes its own element out of a set (a deleted / created path that turns out to be one end of a move) ranges over a copy of that set as it stands at the loop, not over an earlier value of it: elements added since (paths present in both snapshots whose inode changed) would never be examined and stay listed as deleted / created besides being one end of a move",
+        floor=2,
+    )
+    pairing_loops_examine_the_whole_set(ctx, RPL, P)
 
     # ---------------------------------------------------------------- polling emitter table
     pf = P.find_method("PollingEmitter", "queue_events")
